@@ -165,6 +165,9 @@ func (w *world) fail(prop, oracle, sig string, format string, args ...any) {
 		// mismatch or leak between the key spaces shows as a divergence from the sorted-map model
 		prop = "C12"
 	}
+	if w.cfg.ReportAs != "" && (prop == "C01" || prop == "C02" || prop == "C09") {
+		prop = w.cfg.ReportAs
+	}
 	w.out.Fail(prop, oracle, sig, w.step, format, args...)
 }
 
@@ -422,12 +425,22 @@ func (w *world) appendCmds(cmds []Cmd) {
 			// ... and of a longer one, the commands at or below that leader index (each replicated command
 			// carries its own) are the ones already applied: only the rest takes effect
 			eff := &regattapb.Command{Type: regattapb.Command_SEQUENCE, Table: dec.Table}
+			head := true
 			for _, sc := range dec.Sequence {
-				if sc.LeaderIndex != nil && *sc.LeaderIndex <= li {
+				if head && sc.LeaderIndex != nil && *sc.LeaderIndex <= li {
 					w.out.Probe("stale-sequence-head-in-log")
 					continue
 				}
+				head = false // leader commands are consecutive: what was applied before is a head, never a middle
 				eff.Sequence = append(eff.Sequence, sc)
+				if sc.Type == regattapb.Command_SEQUENCE {
+					for _, in := range sc.Sequence {
+						if in.LeaderIndex != nil && *in.LeaderIndex <= li {
+							// the commands of a nested sequence carry the indices of another log: all of them apply
+							w.out.Probe("nested-sequence-with-foreign-indices-below-table-index")
+						}
+					}
+				}
 			}
 			w.exp = append(w.exp, st.Apply(eff))
 			li = *dec.LeaderIndex
